@@ -107,7 +107,8 @@ def run_shard(desc, tier, res):
     if desc['depth'] == 3:
         alphas = [ALPHA['quick'][1], ALPHA['quick'][1], ALPHA['thorough'][2]]
     if desc.get('reduced_first'):
-        alphas = [dict(nk=2, nks=2, forms=('src', 'fst'), opts=({}, {'trivia': False})), ALPHA['quick'][1]]
+        alphas = [dict(nk=2, nks=2, forms=('src', 'fst'), opts=({}, {'trivia': False}), lc_texts=('lc', 'a much longer comment', None)),
+                  ALPHA['quick'][1]]
 
     def on_state(root, pre, hist, cid, c2):
         res.traces += 1
@@ -122,7 +123,10 @@ def run_shard(desc, tier, res):
             res.nontriv(c2[2], c2[3])
         res.sample({'start': src0, 'history': [E.op_id(o) for o in hist], 'result': c2[2]})
 
-    X.bfs(fst, src0, desc['depth'], alphas, tuple(desc['part']), res, on_state, cid_prefix=f"C01/p{desc['prog']}/")
+    # histories of length >= 2 run with every cacheable query asked before each edit (a stale cached extent then shows up as
+    # a wrong splice); depth-1 shards run without any query
+    X.bfs(fst, src0, desc['depth'], alphas, tuple(desc['part']), res, on_state, cid_prefix=f"C01/p{desc['prog']}/",
+          warm=desc['depth'] >= 2)
 
 
 def replay(rep, res):
